@@ -6,7 +6,9 @@ mod genr;
 mod model;
 mod oracles;
 mod oracles_worker;
+mod batch;
 mod run;
+mod shrink;
 mod sim;
 mod spec;
 
@@ -20,6 +22,9 @@ fn arg_value(args: &[String], name: &str) -> Option<String> {
 
 fn main() {
     sim::panic::install_hook();
+    if std::env::var("HQSIM_LOUD").is_ok() {
+        sim::panic::set_quiet(false);
+    }
     let args: Vec<String> = std::env::args().collect();
     let cmd = args.get(1).map(|s| s.as_str()).unwrap_or("");
     match cmd {
@@ -59,6 +64,9 @@ fn main() {
             for i in 0..n {
                 let seed = from + i;
                 let p = profile.unwrap_or(Profile::all()[(seed % 8) as usize]);
+                if args.iter().any(|a| a == "--list") {
+                    println!("seed {seed} profile {}", p.name());
+                }
                 let r = run::run_seed(
                     seed,
                     p,
@@ -91,8 +99,76 @@ fn main() {
             }
             println!("probes: {:?}", probes.0);
         }
+        "shard" => {
+            let property = arg_value(&args, "--property").unwrap();
+            let seed: u64 = arg_value(&args, "--seed").and_then(|s| s.parse().ok()).unwrap_or(batch::DEFAULT_SEED);
+            let from: u64 = arg_value(&args, "--from").and_then(|s| s.parse().ok()).unwrap_or(0);
+            let n: u64 = arg_value(&args, "--n").and_then(|s| s.parse().ok()).unwrap_or(1);
+            let stride: u64 = arg_value(&args, "--stride").and_then(|s| s.parse().ok()).unwrap_or(1);
+            let out = arg_value(&args, "--out").unwrap();
+            let props = batch::cluster_properties();
+            let cfg = props.iter().find(|p| p.id == property).expect("property");
+            let shard = batch::run_shard(cfg, seed, from, n, stride, &format!("s{from}"));
+            std::fs::write(&out, serde_json::to_string(&shard).unwrap()).unwrap();
+        }
+        "check" => {
+            let property = arg_value(&args, "--property").unwrap();
+            let tier = arg_value(&args, "--tier").unwrap_or_else(|| "quick".into());
+            let seed: u64 = std::env::var("VERIF_SEED")
+                .ok()
+                .and_then(|s| s.parse().ok())
+                .or_else(|| arg_value(&args, "--seed").and_then(|s| s.parse().ok()))
+                .unwrap_or(batch::DEFAULT_SEED);
+            let jobs: u64 = arg_value(&args, "--jobs")
+                .and_then(|s| s.parse().ok())
+                .unwrap_or_else(|| std::thread::available_parallelism().map(|n| n.get() as u64).unwrap_or(8));
+            let verif_dir = std::path::PathBuf::from(
+                arg_value(&args, "--verif-dir").unwrap_or_else(|| "/verif".into()),
+            );
+            let code = batch::check_cluster(&batch::CheckArgs {
+                property,
+                tier,
+                seed,
+                jobs,
+                runs_override: arg_value(&args, "--runs").and_then(|s| s.parse().ok()),
+                verif_dir,
+            });
+            std::process::exit(code);
+        }
+        "replay" => {
+            let path = std::path::PathBuf::from(args.get(2).expect("replay file"));
+            let verbose = args.iter().any(|a| a == "-v");
+            std::process::exit(batch::replay_file(&path, verbose));
+        }
+        "shrink" => {
+            // hqsim shrink --seed S --profile P --target "C08 oracle@key" [--out file]
+            let seed: u64 = arg_value(&args, "--seed").and_then(|s| s.parse().ok()).unwrap();
+            let profile = arg_value(&args, "--profile").and_then(|s| Profile::parse(&s)).unwrap();
+            let target = arg_value(&args, "--target").unwrap();
+            let r = run::run_seed(seed, profile, &run::RunOptions { verbose: false, tag: "shrink".into(), force_journal: None });
+            let plan = r.plan.clone().unwrap();
+            let (actions, stats) = shrink::shrink(&plan, seed, &r.trace, &target, "shrink", 2000);
+            eprintln!("shrunk {} -> {} actions in {} replays", stats.from, stats.to, stats.replays);
+            let rr = run::replay_actions(&plan, seed, &actions, &run::RunOptions { verbose: false, tag: "shrink".into(), force_journal: None }, None);
+            let msg = rr.findings.iter().find(|f| format!("{} {}", f.property, f.signature()) == target).map(|f| f.message.clone()).unwrap_or_default();
+            let file = run::ReplayFile {
+                engine: "cluster".into(),
+                property: target.split(' ').next().unwrap().to_string(),
+                seed,
+                plan,
+                actions,
+                signature: target.clone(),
+                message: msg,
+                log_hash: format!("{:016x}", rr.log_hash),
+                minimised: true,
+            };
+            let out = arg_value(&args, "--out").unwrap_or_else(|| "/verif/replays/manual.json".into());
+            if let Some(p) = std::path::Path::new(&out).parent() { let _ = std::fs::create_dir_all(p); }
+            std::fs::write(&out, serde_json::to_string_pretty(&file).unwrap()).unwrap();
+            println!("{out}");
+        }
         _ => {
-            eprintln!("usage: hqsim one|many ...");
+            eprintln!("usage: hqsim one|many|shard|check|replay|shrink ...");
             std::process::exit(2);
         }
     }
